@@ -1,27 +1,81 @@
 package errgroup
 
+// Shim of golang.org/x/sync/errgroup on the controlled scheduler (same observable behaviour: Wait returns the
+// first non-nil error; a group made by WithContext cancels its context on the first error and when Wait returns).
+
 import (
 	"vsched"
+	"vsched/context"
 	"vsched/sync"
 )
 
 type Group struct {
+	cancel  func()
 	wg      sync.WaitGroup
+	sem     *vsched.Chan[struct{}]
 	errOnce sync.Once
 	err     error
 }
 
+func WithContext(ctx context.Context) (*Group, context.Context) {
+	ctx, cancel := context.WithCancel(ctx)
+	return &Group{cancel: cancel}, ctx
+}
+
+func (g *Group) done() {
+	if g.sem != nil {
+		g.sem.Recv()
+	}
+	g.wg.Done()
+}
+
 func (g *Group) Wait() error {
 	g.wg.Wait()
+	if g.cancel != nil {
+		g.cancel()
+	}
 	return g.err
 }
 
-func (g *Group) Go(f func() error) {
-	g.wg.Add(1)
+func (g *Group) run(f func() error) {
 	vsched.GoNamed("", func() {
-		defer g.wg.Done()
+		defer g.done()
 		if err := f(); err != nil {
-			g.errOnce.Do(func() { g.err = err })
+			g.errOnce.Do(func() {
+				g.err = err
+				if g.cancel != nil {
+					g.cancel()
+				}
+			})
 		}
 	})
+}
+
+func (g *Group) Go(f func() error) {
+	if g.sem != nil {
+		g.sem.Send(struct{}{})
+	}
+	g.wg.Add(1)
+	g.run(f)
+}
+
+func (g *Group) TryGo(f func() error) bool {
+	if g.sem != nil {
+		// the scheduler is cooperative: nothing runs between this test and the send, which cannot block then
+		if g.sem.Len() >= g.sem.Cap() {
+			return false
+		}
+		g.sem.Send(struct{}{})
+	}
+	g.wg.Add(1)
+	g.run(f)
+	return true
+}
+
+func (g *Group) SetLimit(n int) {
+	if n < 0 {
+		g.sem = nil
+		return
+	}
+	g.sem = vsched.NewChan[struct{}](n)
 }
